@@ -16,7 +16,7 @@ import (
 )
 
 func init() {
-	props["C19"] = &prop{gen: genC19, eval: evalC19, pure: true}
+	props["C19"] = &prop{gen: genC19, eval: evalC19, pure: true, par: func(string) bool { return true }}
 }
 
 func okOrErr(b []byte, err error) string {
